@@ -423,6 +423,10 @@ def splice_contract(chunk_text, contract, fn_label):
     if contract.get('no_unwind', False):
         pass
     edits.append((toks[body_open].start, toks[body_open].start, clause_lines))
+    if contract.get('_vacuity_probe'):
+        # vacuity variant only: the function entry must be reachable under the precondition
+        edits.append((toks[body_open].end, toks[body_open].end,
+                      [('    proof { assert(false); }', ('clause', 'ensures', contract['_vacuity_probe'], 'entry reachable under the precondition (assert false must fail)'))]))
     # loops
     loops = contract.get('loop', [])
     if loops:
@@ -576,8 +580,11 @@ def autospec_for(text, key):
     return spec_txt, contract
 
 
-def build(unit_dir, repo='/repo', mutate=None, auto_items=None):
+def build(unit_dir, repo='/repo', mutate=None, auto_items=None, vacuity=False):
     unit = load_unit(unit_dir)
+    if vacuity:
+        for k_, c_ in unit['_contracts'].items():
+            c_['_vacuity_probe'] = 'vacuity.' + k_.split('::')[-1].strip()
     for (af, aspec) in (auto_items or []):
         unit.setdefault('source', []).append({'file': af, 'items': [aspec], 'auto': True})
     g = GenUnit(name=unit.get('name', os.path.basename(unit_dir)))
@@ -669,6 +676,8 @@ def build(unit_dir, repo='/repo', mutate=None, auto_items=None):
             for ckind in ('requires', 'ensures'):
                 for label, expr in parse_clauses(c.get(ckind, '')):
                     g.clauses.append({'fn': key, 'label': label, 'kind': ckind, 'text': expr})
+            if c.get('_vacuity_probe'):
+                g.clauses.append({'fn': key, 'label': c['_vacuity_probe'], 'kind': 'ensures', 'text': 'vacuity probe'})
             for lp in c.get('loop', []):
                 for label, expr in parse_clauses(lp.get('invariant', '')):
                     g.clauses.append({'fn': key, 'label': label, 'kind': 'invariant', 'text': expr})
